@@ -104,8 +104,31 @@ func (ix *IPDB) UpdateClient(ip net.IP, duid d.Duid, ttl time.Duration) error {
 		return err
 	}
 	now := time.Now()
-	ltime := now.Add(ttl)
+	return ix.updateClient(now, n, duid, now.Add(ttl))
+}
 
+// HoldClient works like UpdateClient but never shortens a lease this client already has.
+func (ix *IPDB) HoldClient(ip net.IP, duid d.Duid, ttl time.Duration) error {
+	ix.Lock()
+	defer ix.Unlock()
+
+	n, err := ix.toUip(ip)
+	if err != nil {
+		return err
+	}
+	return ix.holdClient(time.Now(), n, duid, ttl)
+}
+
+func (ix *IPDB) holdClient(now time.Time, n uip.Uip, duid d.Duid, ttl time.Duration) error {
+	ltime := now.Add(ttl)
+	if cip, cduid := ix.clients.Lookup(now, n, duid); cip != nil && cip == cduid && cip.LeasedUntil().After(ltime) {
+		// The existing lease of this client outlasts what we were asked for: keep it.
+		return nil
+	}
+	return ix.updateClient(now, n, duid, ltime)
+}
+
+func (ix *IPDB) updateClient(now time.Time, n uip.Uip, duid d.Duid, ltime time.Time) error {
 	// First, just try an optimistic set.
 	if ix.clients.SetLease(now, n, duid, ltime) == nil {
 		return nil
